@@ -929,6 +929,10 @@ const c11DevBody = `container c { leaf lf { type string; units "cm"; default "d"
     list l4 { key k; unique "u2 u1"; unique "u1"; leaf k { type string; } leaf u1 { type string; } leaf u2 { type string; } }
     leaf-list ll { type string; min-elements 1; max-elements 5; default "a"; default "b"; units "u"; }
     list li { key k; unique "u1 u2"; max-elements 9; min-elements 0; leaf k { type string; } leaf u1 { type string; } leaf u2 { type string; } must "y"; }
+    leaf-list lu { type string; max-elements unbounded; }
+    leaf-list lp { type string; }
+    list lub { key k; leaf k { type string; } max-elements unbounded; }
+    list lpl { key k; leaf k { type string; } }
     container inner { leaf deep { type int32; } }
     choice ch { case ca { leaf cl { type string; } } case cb { leaf cm { type string; } } }
   }
@@ -966,6 +970,21 @@ func c11Deviations() []c11Dev {
 		{"replace/max-elements", "/c/ll", `deviate replace { max-elements 3; }`, true, []string{"max-elements="}, false, nil},
 		{"replace/min-elements", "/c/ll", `deviate replace { min-elements 2; }`, true, []string{"min-elements="}, false, nil},
 		{"replace/max-elements-list", "/c/li", `deviate replace { max-elements 3; }`, true, []string{"max-elements="}, false, nil},
+		{"replace/max-elements-over-unbounded", "/c/lu", `deviate replace { max-elements 3; }`, true, []string{"max-elements=", "unbounded="}, false, map[string][]string{"max-elements=": {"max-elements=3"}, "unbounded=": {"unbounded=false"}}},
+		{"replace/max-elements-over-unbounded-list", "/c/lub", `deviate replace { max-elements 3; }`, true, []string{"max-elements=", "unbounded="}, false, map[string][]string{"max-elements=": {"max-elements=3"}, "unbounded=": {"unbounded=false"}}},
+		{"replace/unbounded-over-max-elements", "/c/ll", `deviate replace { max-elements unbounded; }`, true, []string{"max-elements=", "unbounded="}, false, map[string][]string{"max-elements=": {}, "unbounded=": {"unbounded=true"}}},
+		{"replace/unbounded-over-max-elements-list", "/c/li", `deviate replace { max-elements unbounded; }`, true, []string{"max-elements=", "unbounded="}, false, map[string][]string{"max-elements=": {}, "unbounded=": {"unbounded=true"}}},
+		{"replace/max-elements-where-absent", "/c/lp", `deviate replace { max-elements 3; }`, false, nil, false, nil},
+		{"replace/unbounded-where-absent", "/c/lpl", `deviate replace { max-elements unbounded; }`, false, nil, false, nil},
+		{"replace/min-elements-where-absent", "/c/lp", `deviate replace { min-elements 1; }`, false, nil, false, nil},
+		{"add/max-elements", "/c/lp", `deviate add { max-elements 3; }`, true, []string{"max-elements=", "unbounded="}, false, map[string][]string{"max-elements=": {"max-elements=3"}, "unbounded=": {"unbounded=false"}}},
+		{"add/max-elements-list", "/c/lpl", `deviate add { max-elements 3; }`, true, []string{"max-elements=", "unbounded="}, false, map[string][]string{"max-elements=": {"max-elements=3"}, "unbounded=": {"unbounded=false"}}},
+		{"add/min-elements", "/c/lp", `deviate add { min-elements 2; }`, true, []string{"min-elements="}, false, map[string][]string{"min-elements=": {"min-elements=2"}}},
+		{"add/unbounded", "/c/lp", `deviate add { max-elements unbounded; }`, true, nil, false, map[string][]string{"max-elements=": {}, "unbounded=": {"unbounded=true"}}},
+		{"add/max-elements-where-unbounded-stated", "/c/lu", `deviate add { max-elements 3; }`, false, nil, false, nil},
+		{"add/max-elements-where-present", "/c/ll", `deviate add { max-elements 3; }`, false, nil, false, nil},
+		{"add/unbounded-where-max-elements-present", "/c/li", `deviate add { max-elements unbounded; }`, false, nil, false, nil},
+		{"add/min-elements-where-present", "/c/ll", `deviate add { min-elements 3; }`, false, nil, false, nil},
 		{"replace/type", "/c/plain", `deviate replace { type int32; }`, true, []string{"type.format="}, false, nil},
 		{"replace/leaf-list-defaults", "/c/ll", `deviate replace { default "z"; }`, true, []string{"default="}, false, nil},
 		{"replace/units-where-absent", "/c/plain", `deviate replace { units "mm"; }`, false, nil, false, nil},
